@@ -86,7 +86,7 @@ def epoch(kind="posterior"):
 
 
 @contextlib.contextmanager
-def forcing():
+def forcing(which=("u", "z", "cat")):
     j = J()
     jax, jnp, np = j["jax"], j["jnp"], j["np"]
     from jax.experimental import io_callback
@@ -106,8 +106,13 @@ def forcing():
             return np.asarray(_pop("cat"), cdt(int))
         return io_callback(cb, jax.ShapeDtypeStruct((), cdt(int)), logits, ordered=True)
 
-    with mock.patch("jax.random.uniform", f_uniform), mock.patch("jax.random.normal", f_normal), \
-            mock.patch("jax.random.categorical", f_cat):
+    with contextlib.ExitStack() as es:
+        if "u" in which:
+            es.enter_context(mock.patch("jax.random.uniform", f_uniform))
+        if "z" in which:
+            es.enter_context(mock.patch("jax.random.normal", f_normal))
+        if "cat" in which:
+            es.enter_context(mock.patch("jax.random.categorical", f_cat))
         yield
 
 
@@ -775,6 +780,135 @@ def glue_emit_goals(ci, c):
 
 
 # =================================================================================================
+# keys: the kernels of one KernelSequence transition draw from independent randomness
+# =================================================================================================
+KEYS_HEADER = """From Coq Require Import List Bool NArith.
+Import ListNotations.
+From LV Require Import Goose.CorrC04Keys.
+"""
+
+
+def keys_observe(spec):
+    j = J()
+    jax, jnp, np, gs = j["jax"], j["jnp"], j["np"], j["gs"]
+    from liesel.goose.kernel_sequence import KernelSequence
+    from liesel.goose.kernel import DefaultTransitionInfo, TransitionOutcome
+    ep = epoch(spec.get("epoch", "posterior"))
+    words = lambda k: [int(v) for v in np.asarray(jax.random.key_data(k)).ravel()[-2:]]
+    if spec["mode"] == "record":
+        # harness kernels that record the key they receive (and the uniform they would draw from it)
+        class Rec:
+            error_book = {0: "no errors"}
+            needs_history = False
+            position_keys = ()
+
+            def __init__(self, i):
+                self.identifier = f"rec_{i:02d}"
+
+            def init_state(self, prng_key, model_state):
+                return {"key": jnp.zeros(2, jnp.uint32), "u": jnp.asarray(0.0)}
+
+            def transition(self, prng_key, kernel_state, model_state, epoch):
+                kd = jax.random.key_data(prng_key).ravel()[-2:].astype(jnp.uint32)
+                info = DefaultTransitionInfo(0, 1.0, 1)
+                return TransitionOutcome(info, {"key": kd, "u": jax.random.uniform(prng_key)},
+                                         {"n": model_state["n"] + 1})
+
+        m, T = spec["m"], spec["T"]
+        seq = KernelSequence([Rec(i) for i in range(m)])
+        key0 = jax.random.PRNGKey(spec["seed"])
+        ms0 = {"n": jnp.asarray(0)}
+        kss0 = seq.init_states(key0, ms0)
+
+        def body(carry, _):
+            key, kss, ms = carry
+            key, sub = jax.random.split(key)
+            out = seq.transition(sub, kss, ms, ep)
+            rec = (jax.random.key_data(sub).ravel()[-2:].astype(jnp.uint32),
+                   jnp.stack([ks["key"] for ks in out.kernel_states]),
+                   jnp.stack([ks["u"] for ks in out.kernel_states]),
+                   jnp.stack([jax.random.key_data(k).ravel()[-2:].astype(jnp.uint32) for k in jax.random.split(sub, m)]))
+            return (key, out.kernel_states, out.model_state), rec
+
+        (_, _, msT), (subs, kks, us, model_keys) = jax.jit(lambda k: jax.lax.scan(body, (k, kss0, ms0), None, length=T))(key0)
+        subs, kks, us, model_keys = (np.asarray(a) for a in (subs, kks, us, model_keys))
+        return {"trs": [{"key": [int(v) for v in subs[t]], "kernel_keys": [[int(v) for v in kks[t, i]] for i in range(m)],
+                         "u": [float(v) for v in us[t]]} for t in range(T)],
+                "n_calls": int(msT["n"]), "path_model_matches": bool((kks == model_keys).all())}
+    # coupling: REAL kernels with their real normal draws (only the accept decision is forced to "accept")
+    iface = gs.DictInterface(lambda st: -st["a"] ** 2 / 2 - (st["b"] - st["a"]) ** 2 / 2)
+    s1, s2 = float(fr(spec["steps"][0])), float(fr(spec["steps"][1]))
+    k1 = gs.RWKernel(["a"], initial_step_size=s1)
+    k2 = (gs.RWKernel if spec["kernels"][1] == "rw" else gs.IWLSKernel)(["b"], initial_step_size=s2)
+    for i, k in enumerate((k1, k2)):
+        k.set_model(iface)
+        k.identifier = f"kernel_{i:02d}"
+    seq = KernelSequence([k1, k2])
+    a0, b0 = float(fr(spec["pos"][0])), float(fr(spec["pos"][1]))
+    st = {"a": jnp.asarray(a0), "b": jnp.asarray(b0)}
+    kss = seq.init_states(jax.random.PRNGKey(0), st)
+    pairs = []
+    with forcing(which=("u",)):
+        step = jax.jit(lambda key: seq.transition(key, kss, st, ep))
+        for sd in spec["seeds"]:
+            _reset(u=[0.0])
+            out = step(jax.random.PRNGKey(sd))
+            a1, b1 = float(out.model_state["a"]), float(out.model_state["b"])
+            z1 = (a1 - a0) / s1
+            z2 = (b1 - b0) / s2 if spec["kernels"][1] == "rw" else (b1 - (b0 + s2 * s2 / 2 * (-(b0 - a1)))) / s2
+            pairs.append({"seed": sd, "z1": z1, "z2": z2})
+    return {"pairs": pairs}
+
+
+def keys_bad_transitions(o):
+    """python reading of run_keys_ok: (index, reason) of offending transitions"""
+    bad = []
+    seen = {}
+    for t, tr in enumerate(o["trs"]):
+        ks = [tuple(k) for k in tr["kernel_keys"]]
+        for i in range(len(ks)):
+            for jx in range(i + 1, len(ks)):
+                if ks[i] == ks[jx]:
+                    bad.append((t, f"kernels {i} and {jx} of the sequence both received the key {list(ks[i])}"))
+        if tuple(tr["key"]) in ks:
+            bad.append((t, f"kernel {ks.index(tuple(tr['key']))} received the sequence's own key {tr['key']} unsplit"))
+        for k in ks + [tuple(tr["key"])]:
+            if k in seen and seen[k] != t:
+                bad.append((t, f"key {list(k)} was already used in transition {seen[k]}"))
+            seen.setdefault(k, t)
+    return bad
+
+
+def keys_oracle(c):
+    spec, o = c["spec"], c["obs"]
+    if spec["mode"] == "record":
+        if o["n_calls"] != spec["m"] * spec["T"]:
+            return f"KernelSequence of {spec['m']} kernels made {o['n_calls']} kernel calls in {spec['T']} transitions"
+        bad = keys_bad_transitions(o)
+        if bad:
+            t, why = bad[0]
+            return (f"KernelSequence of {spec['m']} kernels, PRNGKey({spec['seed']}), transition {t} (key {o['trs'][t]['key']}): {why}; "
+                    f"the kernels do not draw from independent randomness (their uniform draws: {o['trs'][t]['u']}), "
+                    "so the sequence is not the product of its kernels")
+        return None
+    for pr in o["pairs"]:
+        if abs(pr["z1"] - pr["z2"]) < 1e-9:
+            return (f"KernelSequence [rw on a, {spec['kernels'][1]} on b] at (a,b)={spec['pos']} with PRNGKey({pr['seed']}): both kernels "
+                    f"used the same normal draw z = {pr['z1']}: the blocks' randomness is coupled (same key), the joint target is not invariant")
+    return None
+
+
+def keys_emit(ctx, ci, c):
+    o = c["obs"]
+    if c["spec"]["mode"] != "record":
+        return None
+    wk = lambda k: f"({int(k[0])}%N, {int(k[1])}%N)"
+    trs = lst("(" + wk(tr["key"]) + ", " + lst(wk(k) for k in tr["kernel_keys"]) + ")" for tr in o["trs"])
+    txt = KEYS_HEADER + f"Lemma c{ci}_keys_ok : run_keys_ok {trs} = true.\nProof. vm_compute. reflexivity. Qed.\n"
+    return ctx.new_shard(txt, f"c{ci:03d}_keys")
+
+
+# =================================================================================================
 # generator
 # =================================================================================================
 def dy(rnd, lo, hi, den):
@@ -847,6 +981,14 @@ CORPUS_GLUE = [
 ]
 
 
+CORPUS_KEYS = [
+    {"mode": "record", "m": 2, "T": 4, "seed": 0},
+    {"mode": "record", "m": 3, "T": 5, "seed": 1337, "epoch": "burnin"},
+    {"mode": "coupling", "kernels": ["rw", "rw"], "steps": ["1/2", "3/4"], "pos": ["1/4", "-1/2"], "seeds": list(range(12))},
+    {"mode": "coupling", "kernels": ["rw", "iwls"], "steps": ["1/2", "1/2"], "pos": ["-1/4", "1/2"], "seeds": list(range(100, 112))},
+]
+
+
 def gen_fin(rnd, iface, na, nb, shape):
     ks = []
     for typ, blk in shape:
@@ -901,6 +1043,8 @@ def observe(c, **kw):
         return fin_observe(c["spec"], **kw)
     if c["kind"] == "cont":
         return cont_observe(c["spec"])
+    if c["kind"] == "keys":
+        return keys_observe(c["spec"])
     return glue_observe(c["spec"])
 
 
@@ -910,6 +1054,8 @@ def describe(c):
         return f"fin.{s['iface']}.{s['na']}x{s['nb']}." + "+".join(f"{k['type']}_{k['blk']}" for k in s["kernels"])
     if c["kind"] == "cont":
         return f"cont.{s['kernel']}.{s['target']['name']}" + ("." + s["target"]["blk"] if "blk" in s["target"] else "")
+    if c["kind"] == "keys":
+        return f"keys.record.{s['m']}kernels" if s["mode"] == "record" else "keys.coupling." + "+".join(s["kernels"])
     return f"glue.{s['kernel']}.{s['model']['name']}." + "+".join(s["blocks"])
 
 
@@ -918,6 +1064,15 @@ def specs(ctx, rnd):
     out = [{"kind": "fin", "spec": dict(s)} for s in CORPUS_FIN]
     out += [{"kind": "cont", "spec": dict(s)} for s in CORPUS_CONT]
     out += [{"kind": "glue", "spec": dict(s)} for s in CORPUS_GLUE]
+    out += [{"kind": "keys", "spec": dict(s)} for s in CORPUS_KEYS]
+    for _ in range(1 if q else 8):
+        out.append({"kind": "keys", "spec": {"mode": "record", "m": rnd.choice([2, 3, 4]), "T": rnd.choice([3, 6, 8]),
+                                             "seed": rnd.randrange(2 ** 31), "epoch": rnd.choice(["posterior", "burnin"])}})
+    if not q:
+        for kk in (["rw", "rw"], ["rw", "iwls"]):
+            out.append({"kind": "keys", "spec": {"mode": "coupling", "kernels": kk, "steps": ["3/4", "1/4"],
+                                                 "pos": [str(dy(rnd, -1, 1, 8)), str(dy(rnd, -1, 1, 8))],
+                                                 "seeds": [rnd.randrange(2 ** 31) for _ in range(64)]}})
     # forced strata for the finite cases
     fin_plan = [("dict", 3, 2, [("mh", "a"), ("mh", "b")]),
                 ("dict", 2, 2, [("mh", "b"), ("gibbs", "a"), ("mh", "b")]),
@@ -960,7 +1115,14 @@ def generate(ctx):
         ctx.hist("epoch." + c["spec"].get("epoch", "posterior"))
         if c["obs"].get("degenerate"):
             ctx.hist("cont.degenerate_not_emitted(acceptance underflow or proposal == current)")
-    ev = sum(c["obs"].get("runs", 3) for c in cases)
+    for c in cases:
+        if c["kind"] == "keys":
+            if c["spec"]["mode"] == "record":
+                ctx.hist("keys.recorded_kernel_keys", c["spec"]["m"] * c["spec"]["T"])
+                ctx.hist("keys.split_path_model_matches" if c["obs"]["path_model_matches"] else "keys.split_path_model_differs(not an alarm)")
+            else:
+                ctx.hist("keys.real_draw_pairs", len(c["obs"]["pairs"]))
+    ev = sum(c["obs"].get("runs", len(c["obs"].get("pairs", [])) or 3) for c in cases)
     distinct = {common.json.dumps(c["spec"], sort_keys=True) for c in cases}
     ctx.count(ev, len(distinct))
     ctx.cov["rule"] = ("distinct = distinct case specifications (finite model + kernel sequence, or continuous target + kernel "
@@ -976,13 +1138,17 @@ def generate(ctx):
         "mass matrix): differential test, blackjax's integrator and NUTS tree are trusted, no invariance theorem for them",
         "invariance on continuous state spaces (RW/IWLS): only the algebra (proposal map, Hastings correction, acceptance ratio, "
         "detailed-balance residual at sampled forced moves) is certified; no measure-theoretic theorem",
-        "independence of the PRNG keys handed to the kernels of a sequence (matrix product) - C10's key hygiene",
+        "pairwise distinct keys => independent draws (threefry behaves like a random function): trusted; the keys themselves are "
+        "checked (recording kernels, Coq lemma run_keys_ok) and real RW+RW / RW+IWLS sequences are checked not to reuse the normal draw",
         "tuning state constant in burn-in / posterior epochs is observed per transition; the epoch-level statement is C11",
     ]
     ctx.assume += [
         "finite state space, positive weights (generator: dyadic positive weights)",
         "proposal tables non-negative with symmetric support; log-correction = log q(x|x') - log q(x'|x) on the support (mh_hyps)",
         "uniform draws are uniform on [0,1) and independent of the proposal (key split) - jax.random trusted",
+        "C04_sequence_invariant applies to KernelSequence only if the kernels of one transition draw from independent randomness "
+        "(C04_independent_randomness_gives_product; refuted for shared randomness by C04_shared_randomness_refuted): checked on every run "
+        "as pairwise distinct keys, none equal to the sequence's key, none reused across transitions (keys_independent)",
     ]
     ctx.extra_tb = ["jax.random.{uniform,normal,categorical} are replaced by forced values inside the harness process to enumerate "
                     "the random choices; blackjax (HMC/NUTS) trusted; tfp densities of the finite/linear models trusted up to the "
@@ -991,7 +1157,7 @@ def generate(ctx):
 
 
 def oracle(c):
-    return {"fin": fin_oracle, "cont": cont_oracle, "glue": glue_oracle}[c["kind"]](c)
+    return {"fin": fin_oracle, "cont": cont_oracle, "glue": glue_oracle, "keys": keys_oracle}[c["kind"]](c)
 
 
 def emit(ctx, cases):
@@ -1000,6 +1166,10 @@ def emit(ctx, cases):
     for i, c in enumerate(cases):
         if c["kind"] == "fin":
             for p in fin_emit(ctx, i, c):
+                shards.append((p, [i]))
+        elif c["kind"] == "keys":
+            p = keys_emit(ctx, i, c)
+            if p:
                 shards.append((p, [i]))
         elif c["kind"] == "cont":
             if not c["obs"].get("degenerate"):
@@ -1019,6 +1189,8 @@ def py_disagree(ci, c):
     np = J()["np"]
     bad = []
     spec, o = c["spec"], c["obs"]
+    if c["kind"] == "keys":
+        return [f"c{ci}_keys_ok"] if spec["mode"] == "record" and keys_bad_transitions(o) else []
     if c["kind"] == "fin":
         nb = spec["nb"]
         n = spec["na"] * nb
@@ -1124,6 +1296,7 @@ def search(ctx, disagreeing):
     extra = [{"kind": "cont", "spec": gen_cont(rnd)} for _ in range(60)]
     extra += [{"kind": "fin", "spec": gen_fin(rnd, "dict", 2, 3, [("mh", "a"), ("gibbs", "b"), ("mh", "b")])} for _ in range(3)]
     extra += [{"kind": "glue", "spec": gen_glue(rnd)} for _ in range(3)]
+    extra += [{"kind": "keys", "spec": {"mode": "record", "m": m, "T": 4, "seed": rnd.randrange(2 ** 31)}} for m in (2, 3, 4)]
     for c in extra:
         try:
             c["obs"] = observe(c)
